@@ -123,6 +123,57 @@ type Term struct {
 	Hi   uint64
 	A, B int
 	Name string
+	key  string // structural key (lazily computed; "" = not yet, "-" = too large)
+}
+
+// Key returns a canonical structural string for small terms ("" if too large).
+func (t *Term) Key() string {
+	if t.key == "-" {
+		return ""
+	}
+	if t.key != "" {
+		return t.key
+	}
+	n := 0
+	var sb strings.Builder
+	if !t.writeKey(&sb, &n) {
+		t.key = "-"
+		return ""
+	}
+	t.key = sb.String()
+	return t.key
+}
+
+func (t *Term) writeKey(sb *strings.Builder, n *int) bool {
+	*n++
+	if *n > 40 {
+		return false
+	}
+	switch t.Op {
+	case OpConst:
+		fmt.Fprintf(sb, "k%d:%d:%x:%x", t.S.K, t.S.W, t.Hi, t.Lo)
+		return true
+	case OpVar:
+		sb.WriteString(t.Name)
+		return true
+	}
+	fmt.Fprintf(sb, "(%d,%d,%d,%s", t.Op, t.A, t.B, t.Name)
+	args := t.Args
+	if (t.Op == OpEq || t.Op == OpBVAdd || t.Op == OpBVAnd || t.Op == OpBVOr || t.Op == OpBVXor || t.Op == OpAnd || t.Op == OpOr) && len(args) == 2 {
+		// commutative: order operands canonically by their own keys when cheap
+		k0, k1 := args[0].Key(), args[1].Key()
+		if k0 != "" && k1 != "" && k1 < k0 {
+			args = []*Term{args[1], args[0]}
+		}
+	}
+	for _, a := range args {
+		sb.WriteByte(' ')
+		if !a.writeKey(sb, n) {
+			return false
+		}
+	}
+	sb.WriteByte(')')
+	return true
 }
 
 var (
